@@ -132,7 +132,8 @@ func runC13(c *Ctx) {
 		}
 		c.Saw(fn)
 		okReq := false
-		for _, call := range callsIn(fn) {
+		w.Focus(fn)
+		for _, call := range w.callsInDeep(fn) {
 			if callee := call.Common().StaticCallee(); callee != nil && callee == clientExchange(w) {
 				ex := w.Expr(call.Common().Args[1])
 				okReq = strings.Contains(ex, "builtin:append") && strings.Contains(ex, "conv<[]byte>(p1)")
@@ -186,10 +187,10 @@ func runC13(c *Ctx) {
 	c.Saw(serve)
 	req := "call<" + RepoMod + "/agent/yubiagent.read>(p1)#0"
 	for _, cv := range invokeOf(serve, "ReadSlot") {
-		c.Check(w.Expr(cv.Call.Args[0]) == "conv<string>("+req+")[const(1):]", "R2.passthrough", "server.ReadSlot arm|slot is the request body", w.Pos(cv.Pos()), "string(req)[1:]", "the slot name handed to the agent is not the request body: "+w.Short(cv.Call.Args[0]))
+		c.Check(w.Expr(cv.Call.Args[0]) == "conv<string>("+req+")[const(1):]" || w.Expr(cv.Call.Args[0]) == "conv<string>("+req+"[const(1):])", "R2.passthrough", "server.ReadSlot arm|slot is the request body", w.Pos(cv.Pos()), "string(req)[1:]", "the slot name handed to the agent is not the request body: "+w.Short(cv.Call.Args[0]))
 	}
 	for _, cv := range invokeOf(serve, "AttestSlot") {
-		c.Check(w.Expr(cv.Call.Args[0]) == "conv<string>("+req+")[const(1):]", "R2.passthrough", "server.AttestSlot arm|slot is the request body", w.Pos(cv.Pos()), "string(req)[1:]", "the slot name handed to the agent is not the request body: "+w.Short(cv.Call.Args[0]))
+		c.Check(w.Expr(cv.Call.Args[0]) == "conv<string>("+req+")[const(1):]" || w.Expr(cv.Call.Args[0]) == "conv<string>("+req+"[const(1):])", "R2.passthrough", "server.AttestSlot arm|slot is the request body", w.Pos(cv.Pos()), "string(req)[1:]", "the slot name handed to the agent is not the request body: "+w.Short(cv.Call.Args[0]))
 	}
 	for _, cv := range invokeOf(serve, "AddHardCert") {
 		// key: phi of ParsePublicKey(req[1:]) and ParsePublicKey(msg.KeyBlob); comment: "" or msg.Comment
@@ -370,7 +371,18 @@ func runC13(c *Ctx) {
 			}
 			c.Check(okLine, "R4.slots", "ListSlots|every line of the tool output in order", w.Pos(call.Pos()), "for _, line := range strings.Split(output, \"\\n\")", "lines are not taken in order from the tool's output split on newlines")
 			// prefix test
+			isHasPrefix := func(v ssa.Value) bool {
+				hp, ok := v.(*ssa.Call)
+				if !ok || calleeName(hp) != "strings.HasPrefix" || len(hp.Call.Args) != 2 || hp.Call.Args[0] != line {
+					return false
+				}
+				k, isK := strConst(hp.Call.Args[1])
+				return isK && k == "Slot"
+			}
 			okPrefix := f.Any(call.Block(), func(l Lit) bool {
+				if l.Pol && isHasPrefix(l.V) {
+					return true
+				}
 				bin, ok := l.V.(*ssa.BinOp)
 				if !ok || !l.Pol || bin.Op != token.EQL {
 					return false
@@ -395,6 +407,12 @@ func runC13(c *Ctx) {
 					continue
 				}
 				ex := w.Short(l.V)
+				if isHasPrefix(l.V) {
+					continue
+				}
+				if u, ok := l.V.(*ssa.UnOp); ok && u.Op == token.NOT && isHasPrefix(u.X) {
+					continue
+				}
 				if bin, ok := l.V.(*ssa.BinOp); ok {
 					if la := lenArg(bin.X); la != nil && la == line {
 						continue
@@ -492,7 +510,13 @@ func checkErrField(c *Ctx, fn *ssa.Function, name string) {
 	w := c.w
 	f := w.Facts(fn)
 	n := 0
-	for _, b := range fn.Blocks {
+	var blocks []*ssa.BasicBlock
+	for _, tf := range w.Tree(fn) {
+		if tf.Parent() == nil && (tf == fn || w.transparent(tf)) {
+			blocks = append(blocks, tf.Blocks...)
+		}
+	}
+	for _, b := range blocks {
 		hasErr := f.Any(b, func(l Lit) bool {
 			bin, ok := l.V.(*ssa.BinOp)
 			if !ok {
@@ -512,7 +536,7 @@ func checkErrField(c *Ctx, fn *ssa.Function, name string) {
 	// every return reachable: the returned error is non-nil when Err != "" — decided on the leaves
 	ok := n > 0
 	for _, r := range liveReturns(fn) {
-		for _, lf := range w.Leaves(r.Results[len(r.Results)-1], r) {
+		for _, lf := range w.LeavesErr(r.Results[len(r.Results)-1], r) {
 			errSet := false
 			for l := range lf.Facts {
 				if bin, isBin := l.V.(*ssa.BinOp); isBin {
@@ -538,7 +562,7 @@ func checkErrField(c *Ctx, fn *ssa.Function, name string) {
 			return isK && k == "" && strings.HasSuffix(w.Expr(bin.X), ".Err") && ((bin.Op == token.NEQ && l.Pol) || (bin.Op == token.EQL && !l.Pol))
 		})
 	}
-	for _, b := range fn.Blocks {
+	for _, b := range blocks {
 		if errAt(b) && !leadsOnlyToReturns(b, errAt) {
 			// ListSlots stores the error and falls through to one return: accept when every return below is non-nil
 			for _, r := range liveReturns(fn) {
